@@ -17,8 +17,22 @@ R2  sorted-writer <-> bisect-reader agreement, decided on values, not on
     trajectories each, every trajectory with its own identifier, numpy
     arrays as one-dimensional arrays: what is stored into the two index
     variables must be the identifiers in ascending order, each next to the
-    position of its trajectory in the store.  Only when the interpretation
-    cannot evaluate the writer: what is stored is traced
+    position of its trajectory in the store.  The interpretation is run twice:
+    with small identifiers (order, positions) and with identifiers that only a
+    64-bit integer holds exactly (odd numbers above 2**53).  Arrays carry their
+    element type and hold their values as that type holds them (creation
+    with / without `dtype` - np.empty(0), np.zeros(0), np.array([]) are
+    float64 -, numpy's promotion in concatenate / append / arithmetic,
+    `astype`, true division, the type of the netCDF variable written to), so
+    "what is stored is what was read, unchanged" fails for every writer that
+    sends the identifiers through a float or a narrower integer; python lists
+    and arrays created with the identifiers' own type pass.  The index
+    variable itself is created with that type (every
+    createVariable('flight_id', T, ...), also looped over a literal table
+    of names).  Only when the interpretation
+    cannot evaluate the writer: a construct on the way of the stored
+    identifiers that does not hold 64-bit integers (the same list, decided on
+    the spelling) is a violation whatever the form of the sort, and what is stored is traced
     back (single-definition locals, tuple unpacking, conversions, calls of
     resolved repository functions with their arguments bound) to two columns
     of ONE ascending sort of (position, identifier) pairs — tuples or
@@ -29,7 +43,8 @@ R2  sorted-writer <-> bisect-reader agreement, decided on values, not on
     variables; the other column is the enumeration position or is built
     from nothing but `trajectory_index` variables.  Reader: the one
     binary search (bisect_left, np.searchsorted / .searchsorted, side left;
-    the same call written out more than once counts once)
+    the same call written out more than once counts once; neither the array
+    nor the key passes through a float / narrower-integer conversion)
     runs over the flight_id index variable (read directly or through an
     attribute that holds a copy) for the requested identifier; the value
     returned through the index is `self[T[pos]]` with T the trajectory_index
@@ -57,8 +72,10 @@ R4  all-or-none.  `add`, by interpretation over (identifier use of the store: no
     every uniformly identified sequence (bounded interpretation of `merge`, C09-R2 / R6).
 R5  file-link typestate: `self._nc[<key>]` and `self.index_group.<attr>` are
     dereferenced only on paths that established that files are attached
-    (CFG with certifying edges removed, propagated over self-calls from the
-    public entry points); an in-memory store answers look-ups from its cache.
+    (CFG with certifying edges removed - a test of nc_linked, of
+    `self.index_group is not None`, a loop over the files, a call that attaches
+    files -, propagated over self-calls from the public entry points); an
+    in-memory store answers look-ups from its cache.
 R6  freshness of copies of the index: an attribute of the store that is given
     a value built from the index variables and is read by the look-up is a
     copy that nothing else keeps current.  It must be written (dropped or
@@ -68,6 +85,18 @@ R6  freshness of copies of the index: an attribute of the store that is given
     self-calls).  A refresh tested on `index_stale` in the reader does not
     count: the lazy reindex (or a sync) has cleared the flag by then.
     Zero-expected on today's code; positive control embedded.
+R7  what `add` knows about the stored table.  An attribute of the store whose
+    value is taken from the index table (R6's notion of a copy: built from the
+    index variables or from the columns written into them) and that `add`, or
+    a method it calls on self, consults - to decide that the table is still in
+    order instead of marking it stale - describes the table of the *file*.
+    It must be established on every normal path through every place where an
+    existing index group is attached to the object (`self.index_group = <a
+    group that exists>`, not None, not createGroup; places that are only
+    reached with the store not open for appending are exempt - branch facts on
+    `self.mode`).  Otherwise a store reopened for appending judges its first
+    addition against the constructor's value.  Zero-expected on today's code
+    (add consults nothing of the kind); positive control embedded.
 """
 
 from __future__ import annotations
@@ -429,6 +458,183 @@ def variable_reads(r: Ref, seen: set | None = None) -> set[tuple[str, bool]]:
     return out
 
 
+# ---------------------------------------------------------------------------
+# representation: the identifiers are 64-bit integers and must stay that
+# ---------------------------------------------------------------------------
+
+_NP = ('np', 'numpy')
+_FLOAT_BY_DEFAULT = {'empty', 'zeros', 'ones'}                 # np.empty(n) … without dtype are float64 arrays
+_TAKES_DTYPE_AT = {'empty': 1, 'zeros': 1, 'ones': 1, 'full': 2, 'array': 1, 'asarray': 1, 'ascontiguousarray': 1,
+                   'asanyarray': 1, 'fromiter': 1, 'empty_like': 1, 'zeros_like': 1, 'ones_like': 1, 'full_like': 2,
+                   'arange': None, 'concatenate': None, 'hstack': None}
+
+
+def dtype_expr_code(fi, e: ast.expr | None, depth: int = 0):
+    """element type named by a dtype expression (`np.int64`, `int`, `'i8'`, `np.dtype('<f8')`, a local bound once to
+    one of those) as numpy's kind + bytes, None when it is not a literal type (somebody's `.dtype`, a parameter)"""
+    from .c09 import _DT_NAMES
+    if e is None:
+        return None
+    if isinstance(e, ast.Constant) and isinstance(e.value, str):
+        return _DT_NAMES.get(e.value.lstrip('<>=|'))
+    if isinstance(e, ast.Name):
+        v = single_def_value(fi.node, e.id) if depth < 3 and fi is not None else None
+        if v is not None:
+            return dtype_expr_code(fi, v, depth + 1)
+        return _DT_NAMES.get(e.id) if e.id in ('int', 'float', 'bool', 'object') else None
+    if isinstance(e, ast.Attribute) and isinstance(e.value, ast.Name) and e.value.id in _NP:
+        return _DT_NAMES.get(e.attr) if len(e.attr) > 2 else None
+    if isinstance(e, ast.Call) and call_name(e) in ('np.dtype', 'numpy.dtype') and len(e.args) == 1:
+        return dtype_expr_code(fi, e.args[0], depth + 1)
+    return None
+
+
+def _holds_identifiers(code) -> bool:
+    """an element type that holds every 64-bit identifier as it is (a definite "no" only for the narrower ones)"""
+    return code is None or code in ('i8', 'O', 'u8')
+
+
+def narrowing_step(fi, x: ast.AST):
+    """why the construct x does not hold 64-bit integers exactly, or None: an array created with a float / narrower
+    integer element type or - for the constructors whose default is float64 - with none, a conversion to such a type,
+    true division, arithmetic with a float constant"""
+    from .c09 import dt_text
+    if isinstance(x, ast.BinOp):
+        if isinstance(x.op, ast.Div):
+            # (`/` on paths joins them)
+            if any(isinstance(y, (ast.JoinedStr, ast.Constant)) and isinstance(getattr(y, 'value', ''), (str, list))
+                   or (isinstance(y, ast.Call) and call_name(y).split('.')[-1] in ('Path', 'PurePath', 'str'))
+                   or (isinstance(y, ast.Attribute) and y.attr in ('name', 'parent', 'stem', 'suffix'))
+                   for side in (x.left, x.right) for y in ast.walk(side)):
+                return None
+            return 'true division gives floats'
+        if isinstance(x.op, (ast.Add, ast.Sub, ast.Mult, ast.Pow)) and any(
+                isinstance(o, ast.Constant) and isinstance(o.value, float) for o in (x.left, x.right)):
+            return 'arithmetic with a float constant gives floats'
+        return None
+    if not isinstance(x, ast.Call):
+        return None
+    cn = call_name(x)
+    root, _, last = cn.rpartition('.')
+    if cn == 'float' and len(x.args) == 1:
+        return 'float() of the value'
+    if isinstance(x.func, ast.Attribute) and x.func.attr == 'astype':
+        code = dtype_expr_code(fi, arg_or_kw_(x, 0, 'dtype'))
+        return None if _holds_identifiers(code) else f'conversion to {dt_text(code)}'
+    if root in _NP or root in ('np.ma', 'numpy.ma'):
+        from .c09 import _DT_NAMES
+        if last in _DT_NAMES and len(last) > 2 and len(x.args) == 1 and not _holds_identifiers(_DT_NAMES[last]):
+            return f'conversion to {dt_text(_DT_NAMES[last])}'
+        if last in _TAKES_DTYPE_AT:
+            d = arg_or_kw_(x, _TAKES_DTYPE_AT[last], 'dtype')
+            if d is not None and not (isinstance(d, ast.Constant) and d.value is None):
+                code = dtype_expr_code(fi, d)
+                return None if _holds_identifiers(code) else f'an array of element type {dt_text(code)}'
+            if last in _FLOAT_BY_DEFAULT:
+                return f'np.{last}() without dtype is a float64 array'
+            if last in ('array', 'asarray', 'asanyarray') and x.args and isinstance(x.args[0], (ast.List, ast.Tuple)) \
+                    and not x.args[0].elts:
+                return f'np.{last}([]) without dtype is a float64 array'
+    return None
+
+
+def arg_or_kw_(c: ast.Call, pos, name: str):
+    if pos is not None and len(c.args) > pos and not any(isinstance(a, ast.Starred) for a in c.args[:pos + 1]):
+        return c.args[pos]
+    return kwarg(c, name)
+
+
+def narrowing_steps(r: Ref, seen: set | None = None) -> list[tuple[ast.AST, str]]:
+    """the constructs on the way of the value of r (through the locals it mentions: every binding and every accumulation
+    of each; parameters bound in r.env) that do not hold 64-bit integers exactly"""
+    seen = set() if seen is None else seen
+    out = []
+    fi = r.fi
+
+    def walk(e):
+        """the expression, without the receivers of netCDF variable reads (the content of a variable is where the
+        identifiers come from; how the group was opened is not on their way)"""
+        yield e
+        if isinstance(e, ast.Subscript) and _variable_object(fi, e) is not None:
+            return
+        for ch in ast.iter_child_nodes(e):
+            if not isinstance(ch, (ast.Lambda, ast.FunctionDef)):
+                yield from walk(ch)
+    for x in walk(r.e):
+        why = narrowing_step(fi, x)
+        if why is not None:
+            out.append((x, why))
+        if isinstance(x, ast.Name) and isinstance(x.ctx, ast.Load) and (id(fi.node), x.id) not in seen:
+            seen.add((id(fi.node), x.id))
+            if x.id in r.env and not local_defs(fi.node, x.id):
+                out += narrowing_steps(r.env[x.id], seen)
+                continue
+            for d in local_defs(fi.node, x.id):
+                src = d.iter if isinstance(d, (ast.For, ast.AsyncFor)) else getattr(d, 'value', None)
+                if src is not None:
+                    out += narrowing_steps(r.sub(src), seen)
+            for c in _mutations(fi.node, x.id):
+                for a_ in list(c.args) + [k.value for k in c.keywords]:
+                    out += narrowing_steps(r.sub(a_), seen)
+    return out
+
+
+def rule_identifier_type(ctx, m):
+    """R2: the variable the identifiers are stored in has the identifiers' own element type (64-bit integer)."""
+    from .c09 import dt_text
+    n = 0
+    for fi in m.functions.values():
+        for c in calls_in(fi.node):
+            if not (isinstance(c.func, ast.Attribute) and c.func.attr == 'createVariable' and c.args):
+                continue
+            # the call once per element of every literal sequence it is looped over (`for name in ('flight_id', ...)`,
+            # `for name, t in (('flight_id', np.int64), ...)`, `for name, t in {...}.items()`)
+            envs = [{}]
+            for a in ancestors(c):
+                if not isinstance(a, (ast.For, ast.comprehension)):
+                    continue
+                it = a.iter
+                elts = None
+                if isinstance(it, (ast.Tuple, ast.List)):
+                    elts = list(it.elts)
+                elif isinstance(it, ast.Call) and isinstance(it.func, ast.Attribute) and it.func.attr == 'items' \
+                        and isinstance(it.func.value, ast.Dict) and None not in it.func.value.keys:
+                    elts = [ast.Tuple(elts=[k, v], ctx=ast.Load()) for k, v in zip(it.func.value.keys, it.func.value.values)]
+                if elts is None:
+                    continue
+                new = []
+                for env in envs:
+                    for e_ in elts:
+                        b = dict(env)
+                        if isinstance(a.target, ast.Name):
+                            b[a.target.id] = e_
+                        elif isinstance(a.target, (ast.Tuple, ast.List)) and isinstance(e_, (ast.Tuple, ast.List)) \
+                                and len(a.target.elts) == len(e_.elts):
+                            b.update({t_.id: v_ for t_, v_ in zip(a.target.elts, e_.elts) if isinstance(t_, ast.Name)})
+                        new.append(b)
+                envs = new
+            for env in envs:
+                name = c.args[0]
+                if isinstance(name, ast.Name) and name.id in env:
+                    name = env[name.id]
+                if not (isinstance(name, ast.Constant) and name.value == 'flight_id'):
+                    continue
+                n += 1
+                t = arg_or_kw_(c, 1, 'datatype')
+                if isinstance(t, ast.Name) and t.id in env:
+                    t = env[t.id]
+                code = dtype_expr_code(fi, t)
+                if code is None:
+                    ctx.undecided('C08-R2', fi, norm(c)[:80], 'element type of the flight_id index variable is not a literal type')
+                ok = code == 'i8'
+                ctx.ob('C08-R2', fi, f'index variable flight_id created as {norm(t)}', ok,
+                       'the identifiers\' own 64-bit integer type' if ok else
+                       f'the index variable holds its values as {dt_text(code)}, the identifiers are 64-bit integers: an identifier '
+                       f'that {dt_text(code)} does not hold exactly is stored as another number and cannot be looked up',
+                       line=c.lineno, nontrivial=False)
+    ctx.floor('C08-R2/type', n, 1, "createVariable('flight_id', ...) sites")
+
+
 def _component_expr(target: ast.expr, elt: ast.expr):
     """k such that `elt` is component k of the pair bound to `target` (an index, or a field name of a record)"""
     if isinstance(target, (ast.Tuple, ast.List)) and isinstance(elt, ast.Name):
@@ -675,6 +881,13 @@ def rule_sorted_writers(ctx, m):
                           'expected one store into each of flight_id / trajectory_index, found '
                           + str({k: len(v) for k, v in sorted(W.items())}))
         (s_id, v_id), (s_ix, v_ix) = W['flight_id'][0], W['trajectory_index'][0]
+        # whatever the form of the sort: a construct on the way of the stored identifiers that does not hold 64-bit integers
+        narrowed = narrowing_steps(v_id)
+        for x, why in narrowed[:1]:
+            ctx.ob('C08-R2', fi, f'identifiers stored unchanged: {norm(x)[:60]}', False,
+                   f'on their way into the flight_id index variable the identifiers pass through `{norm(x)[:60]}` ({why}), which does '
+                   'not hold every 64-bit identifier exactly: such an identifier is stored as another number and cannot be looked up',
+                   line=getattr(x, 'lineno', s_id.lineno))
         r_id, r_ix = resolve_value(prog, v_id), resolve_value(prog, v_ix)
         p_id, p_ix = _projection(prog, r_id), _projection(prog, r_ix)
         if p_id is not None and p_ix is not None:
@@ -722,13 +935,27 @@ def rule_sorted_writers(ctx, m):
             ctx.ob('C08-R2', fi, f'flight_id table = {arr.text()[:40]} in its own argsort order', True,
                    'the searched variable is ascending', line=s_id.lineno)
             id_col = ('value', arr)
-            if _argsort_of(prog, r_ix) is not None and same_value(r_ix, order):
+
+            def same_order(o2):
+                """the same permutation: the same evaluation, or the same argsort written out again with nothing stored
+                in between (a temporary that was inlined)"""
+                return same_value(o2, order) or (
+                    o2.fi.node is order.fi.node and not o2.comp and not order.comp and isinstance(o2.e, ast.Call)
+                    and isinstance(order.e, ast.Call) and norm(o2.e) == norm(order.e)
+                    and not _stores_between(o2.fi.node, [o2.e, order.e]))
+            if _argsort_of(prog, r_ix) is not None and same_order(r_ix):
                 pos_col = ('position', None)
             else:
                 pm2 = permuted(r_ix)
-                pos_col = ('value', pm2[0]) if pm2 is not None and same_value(pm2[1], order) else None
+                pos_col = ('value', pm2[0]) if pm2 is not None and same_order(pm2[1]) else None
             what_pos = r_ix.text()[:50]
         keys = {k_ for k_, _ in variable_reads(id_col[1])} if id_col[0] == 'value' else set()
+        steps = narrowing_steps(id_col[1]) if id_col[0] == 'value' and not narrowed else []
+        for x, why in steps[:1]:
+            ctx.ob('C08-R2', fi, f'identifiers stored unchanged: {norm(x)[:60]}', False,
+                   f'on their way into the flight_id index variable the identifiers pass through `{norm(x)[:60]}` ({why}), which does '
+                   'not hold every 64-bit identifier exactly: such an identifier is stored as another number and cannot be looked up',
+                   line=getattr(x, 'lineno', s_id.lineno))
         ok = id_col[0] == 'value' and keys == {'flight_id'}
         ctx.ob('C08-R2', fi, f'flight_id table holds {_describe(id_col)[:60]}', ok,
                'the searched variable holds the flight identifiers' if ok else
@@ -1051,6 +1278,11 @@ def rule_reader(ctx, m):
     if side not in ('left', 'right'):
         ctx.undecided('C08-R2', gf, norm(b)[:80], 'binary search with options that are not modelled')
     a_src = index_source(prog, cls, Ref(arr, gf))
+    for x, why in (narrowing_steps(Ref(arr, gf)) + narrowing_steps(Ref(val, gf)))[:1]:
+        ctx.ob('C08-R2', gf, f'identifiers compared unchanged: {norm(x)[:60]}', False,
+               f'the look-up compares identifiers through `{norm(x)[:60]}` ({why}), which does not hold every 64-bit identifier '
+               'exactly: two different identifiers can compare equal, and the trajectory of another flight is returned',
+               line=getattr(x, 'lineno', b.lineno))
     ok = a_src is not None and a_src[0] == 'flight_id' and is_fid(val)
     ctx.ob('C08-R2', gf, f'{call_name(b).split(".")[-1]}({norm(arr)}, {norm(val)})', ok,
            'searches the flight_id variable for the requested identifier'
@@ -1228,6 +1460,7 @@ def rule_reader(ctx, m):
 
 
 def rule_sorted(ctx, m):
+    rule_identifier_type(ctx, m)
     rule_sorted_writers(ctx, m)
     rule_reader(ctx, m)
 
@@ -1261,6 +1494,12 @@ def _attr_writes(fi, attr: str):
     return out
 
 
+def _whole_variable(t: ast.Subscript) -> bool:
+    sl = t.slice
+    return (isinstance(sl, ast.Slice) and sl.lower is None and sl.upper is None and sl.step is None) \
+        or (isinstance(sl, ast.Constant) and (sl.value is Ellipsis or isinstance(sl.value, str)))
+
+
 def index_copies(prog, methods: dict):
     """{attr: [(FunctionInfo, stmt)]}: attributes of self that are given a value built from the variables of the
     store's index group (read from them, or the very columns that are being written into them)."""
@@ -1269,7 +1508,9 @@ def index_copies(prog, methods: dict):
         written = set()
         for lst in _index_writers(prog, fi).values():
             for st, v in lst:
-                written |= {x.id for x in ast.walk(v.e) if isinstance(x, ast.Name) and isinstance(x.ctx, ast.Load)}
+                if all(_whole_variable(t) for t in ast.walk(st.targets[0]) if isinstance(t, ast.Subscript)
+                       and not isinstance(t.slice, ast.Constant)):       # (a column, not one slot of it)
+                    written |= {x.id for x in ast.walk(v.e) if isinstance(x, ast.Name) and isinstance(x.ctx, ast.Load)}
         cands = []
         for t, st, how in stores_to(fi.node):
             a = _self_attr_of_target(t)
@@ -1451,6 +1692,151 @@ def rule_fresh(ctx, m):
                 'the same store dropping the copy in _reindex is accepted')
 
 
+# ---------------------------------------------------------------------------
+# R7 what `add` knows about the stored table
+# ---------------------------------------------------------------------------
+
+def _attached_existing_index(fi):
+    """statements `self.index_group = <an index group that exists already>` (not None, not a group created here)"""
+    out = []
+    for t, st, how in stores_to(fi.node):
+        if how != 'assign' or not (isinstance(t, ast.Attribute) and t.attr == 'index_group' and isinstance(t.value, ast.Name)
+                                   and t.value.id == 'self'):
+            continue
+        v = st.value
+        for _ in range(4):
+            if isinstance(v, ast.Name):
+                d = single_def_value(fi.node, v.id)
+                if d is None:
+                    break
+                v = d
+            else:
+                break
+        if isinstance(v, ast.Constant) and v.value is None:
+            continue
+        if isinstance(v, ast.Call) and isinstance(v.func, ast.Attribute) and v.func.attr == 'createGroup':
+            continue
+        out.append(st)
+    return out
+
+
+_READ_ONLY_FACT = re.compile(r'self\.mode (==|is) [\w.]*\bAPPEND$')
+
+
+def table_knowledge(prog, methods: dict, writer: str = 'add'):
+    """Attributes of the store whose value is taken from the index table and that the writer consults (it decides from
+    them whether the table is still in order, instead of marking it stale).  Such an attribute describes the table
+    of the *file*: it has to be established wherever an existing table is attached to the object (opening a store
+    for appending), otherwise the first decision of a session is taken on the constructor's value.
+    -> [(attr, fills, [(fi, attach stmt, established?)])]"""
+    if writer not in methods:
+        return []
+    copies = lookup_copies(prog, methods, lookups=(writer,))
+
+    def writes_attr(fi, attr, depth=0):
+        if _attr_writes(fi, attr):
+            return True
+        if depth < 3:
+            for c in calls_in(fi.node):
+                cn = call_name(c)
+                if cn.startswith('self.') and cn.count('.') == 1 and cn[5:] in methods and methods[cn[5:]] is not fi \
+                        and writes_attr(methods[cn[5:]], attr, depth + 1):
+                    return True
+        return False
+
+    out = []
+    for attr, fills in sorted(copies.items()):
+        sites = []
+        for fi in methods.values():
+            att = _attached_existing_index(fi)
+            if not att:
+                continue
+            g, ins, _, _, _ = path_facts(fi.node)
+            dom = g.dominators(edge_ok=_normal)
+            pdom = g.postdominators([g.exit], edge_ok=_normal)
+            w_nodes = set()
+            for st in _attr_writes(fi, attr):
+                w_nodes |= set(g.nodes_of(st))
+            for n in g.nodes:
+                if n.kind == 'stmt' and n.stmt is not None:
+                    for c in calls_in(n.stmt):
+                        cn = call_name(c)
+                        if cn.startswith('self.') and cn.count('.') == 1 and cn[5:] in methods and methods[cn[5:]] is not fi \
+                                and writes_attr(methods[cn[5:]], attr, 1):
+                            w_nodes.add(n.id)
+            for st in att:
+                s_nodes = g.nodes_of(st)
+                # a store that cannot be written to in this state needs no such knowledge
+                if s_nodes and all(any((_READ_ONLY_FACT.search(t) and not p) or (re.search(r'self\.mode (!=|is not) [\w.]*\bAPPEND$', t) and p)
+                                       for t, p in ins.get(sn, ())) for sn in s_nodes):
+                    continue
+                ok = bool(s_nodes) and all(any(w in dom.get(sn, ()) or w in pdom.get(sn, ()) for w in w_nodes) for sn in s_nodes)
+                sites.append((fi, st, ok))
+        out.append((attr, fills, sites))
+    return out
+
+
+_KNOWLEDGE_CONTROL = '''
+class S:
+    def __init__(self):
+        self._last = None
+        self.index_group = None
+    def _open(self):
+        if '_index' in self.ds.groups:
+            self.index_group = self.ds.groups['_index']
+            LOAD
+    def add(self, t):
+        self._write(t)
+        if self._last is None or t.flight_id > self._last:
+            self._append_pair(t)
+        else:
+            self.index_stale = True
+    def _reindex(self):
+        p = sorted(enumerate(self._ids()), key=lambda x: x[1])
+        self.index_group.variables['flight_id'][:] = [i for _, i in p]
+        self.index_group.variables['trajectory_index'][:] = [j for j, _ in p]
+        self._last = p[-1][1] if p else None
+        self.index_stale = False
+'''
+
+
+def _knowledge_control(load: bool):
+    src = _KNOWLEDGE_CONTROL.replace('LOAD', "self._last = self.index_group.variables['flight_id'][-1]" if load else 'pass')
+    tree = ast.parse(src)
+    for n in ast.walk(tree):
+        for ch in ast.iter_child_nodes(n):
+            if not isinstance(ch, (ast.expr_context, ast.operator, ast.unaryop, ast.cmpop, ast.boolop)):
+                ch._parent = n
+    return {f.name: _Fn(f) for f in tree.body[0].body}
+
+
+def rule_table_knowledge(ctx, m):
+    """R7: what `add` believes about the stored table is loaded wherever an existing table is attached."""
+    cls = m.cls('TrajectoryStore')
+    res = table_knowledge(ctx.prog, dict(cls.methods))
+    n_sites = sum(len(_attached_existing_index(fi)) for fi in cls.methods.values())
+    ctx.floor('C08-R7', n_sites, 1, 'places where an existing index group is attached to the store')
+    for attr, fills, sites in res:
+        ffi, fst = fills[0]
+        for sfi, sst, ok in sites:
+            ctx.ob('C08-R7', sfi, f'self.{attr} established where an existing index is attached: {norm(sst)[:50]}', ok,
+                   f'self.{attr} is loaded together with the index group' if ok else
+                   (f'add consults self.{attr} to decide whether the index table is still in order (instead of marking it stale), '
+                    f'and self.{attr} is taken from the table ({ffi.node.name}, line {fst.lineno}); but where an existing table is '
+                    f'attached to the store ({sfi.node.name}: `{norm(sst)[:60]}`) self.{attr} is not established: in a store reopened '
+                    f'for appending it still has the constructor\'s value, so the first identifier added in the session is judged '
+                    f'against nothing - the table can be left unsorted while index_stale stays False, and the bisecting look-up '
+                    f'misses identifiers that were added'), line=sst.lineno)
+    ctx.ob('C08-R7', (m.relpath, 'TrajectoryStore'), f'{len(res)} attribute(s) taken from the index table are consulted by add', True,
+           ', '.join(f'self.{r[0]}' for r in res) or 'add decides nothing from the contents of the index table', nontrivial=False)
+    bad = table_knowledge(None, _knowledge_control(load=False))
+    good = table_knowledge(None, _knowledge_control(load=True))
+    ctx.control('C08-R7', len(bad) == 1 and bad[0][0] == '_last' and [ok for _, _, ok in bad[0][2]] == [False]
+                and len(good) == 1 and [ok for _, _, ok in good[0][2]] == [True],
+                'embedded store whose add compares with a maximum that is never loaded on open is reported; the same store '
+                'loading it next to the index group is accepted')
+
+
 def rule_offsets(ctx, m, rule='C08-R3'):
     fi = m.func('TrajectoryStore._create_merged_store_index')
     loops = [n for n in walk_no_nested(fi.node) if isinstance(n, ast.For)]
@@ -1620,6 +2006,10 @@ def rule_linked(ctx, m, rule='C08-R5', entries=None):
                 facts = conjuncts(s_.test, lab == 't')
                 if any(norm(e) in LINKED_ATOMS and pol for e, pol in facts):
                     return True
+                # an index group exists only inside an attached dataset
+                if any((norm(e) in ('self.index_group is not None', 'self.index_group') and pol)
+                       or (norm(e) == 'self.index_group is None' and not pol) for e, pol in facts):
+                    return True
                 if any(re.fullmatch(r'len\(self\._nc(_files)?\) (> 0|!= 0|>= 1)', norm(e)) and pol for e, pol in facts):
                     return True
             if n.kind == 'iter' and lab == 't' and re.search(r'self\._nc(_files)?\b', norm(s_.iter)):
@@ -1698,6 +2088,7 @@ def run(ctx):
     m = ctx.prog.module(STORE)
     rule_stale(ctx, m)
     rule_fresh(ctx, m)
+    rule_table_knowledge(ctx, m)
     rule_sorted(ctx, m)
     # R3: the merged index and the metadata agree on the order of the parts (provenance rules shared with C09)
     from .c09 import merge_metadata, rule_index_walk, rule_merged_index
